@@ -312,6 +312,15 @@ def check_vars(only=None):
                                         f'{name}.copy(freeze={freeze}): {k} == {b!r}, original {a!r}')
             checked.append(name)
             del o
+        # parameter VALUES that are falsy: backend=False is the documented "no pool" mode of a parallel map
+        serial = inst['DictDataset'].map(lambda x: x, num_workers=1, buffer_size=2, backend=False)
+        for freeze in (False, True):
+            cs = serial.copy(freeze=freeze)
+            for k in ('backend', 'num_workers', 'buffer_size'):
+                if vars(cs).get(k) != vars(serial).get(k) or type(vars(cs).get(k)) is not type(vars(serial).get(k)):
+                    raise Violation(f'copy-parameter|ParMapDataset.{k}',
+                                    f'ParMapDataset(backend=False).copy(freeze={freeze}): {k} == {vars(cs).get(k)!r}, '
+                                    f'original {vars(serial).get(k)!r}')
         inst.clear()
     return checked
 
